@@ -97,7 +97,7 @@ def _hashcons(n, table):
         return n
     kw = {f.name: _hashcons(getattr(n, f.name), table) for f in dataclasses.fields(n) if f.init}
     tmpl = _TEMPLATES.get(type(n).__name__)
-    if tmpl is not None and set(kw) == {"val"} and isinstance(kw["val"], str):
+    if tmpl is not None and isinstance(kw.get("val"), str):
         t = type(n)(tmpl)
         try:
             t.py_val
